@@ -35,3 +35,8 @@ claim('C06', 'path-sensitive alias/effect analysis with callee summaries (input-
       '(reasoned table for pure adders/filters); C06.d primitive call sites pass context-derived options; C06.e recursive calls forward all '
       'options; C06.h component merging unions every summary field',
       'semantic equivalence of any rewrite (unitary / outcome distribution), commutation logic inside individual transformers')
+claim('C20', 'must-precede / dominance rules on the retry and dispatch loops, special-case chain extraction against a reference retry table, helper-request field provenance',
+      'C20.a execution loop ordering (fresh id -> subscribe -> send -> await) and its retry/cancel/response arms; C20.b demultiplexer pop-then-complete, '
+      'not-done guards, duplicate rejection, monotone ids; C20.c every stream failure arm wakes the request iterator and informs all waiters; '
+      'C20.d retry table and helper requests; C20.e collector spawn guards, counter pairing, single delivery',
+      'schedule-universal delivery (needs the interleavings themselves), timeouts/backoff, behaviour of gRPC and duet')
